@@ -156,7 +156,10 @@ class Ctx:
                 print(f"KNOWN-FINDING: property={self.pid} {entry.get('what') or v['what']}")
             else:
                 new.append(v)
-        rdir = os.path.join(ROOT, "replays", self.pid)
+        # a run against a scratch worktree (VERIF_REPO: evaluation of a deliberately broken version) must never overwrite the
+        # evidence / replays of the real tree
+        scratch = "_scratch" if os.environ.get("VERIF_REPO") else ""
+        rdir = os.path.join(ROOT, "replays" + scratch, self.pid)
         os.makedirs(rdir, exist_ok=True)
         for old in os.listdir(rdir):  # replays always describe the latest run only
             if old.endswith(".json"):
@@ -188,8 +191,8 @@ class Ctx:
             "wall_s": round(time.time() - self.t0, 2),
             "violations": len(new),
         }
-        os.makedirs(os.path.join(ROOT, "evidence"), exist_ok=True)
-        with open(os.path.join(ROOT, "evidence", f"{self.pid}.json"), "w") as f:
+        os.makedirs(os.path.join(ROOT, "evidence" + scratch), exist_ok=True)
+        with open(os.path.join(ROOT, "evidence" + scratch, f"{self.pid}.json"), "w") as f:
             json.dump(out, f, indent=1, default=str)
         summary = {k: v for k, v in cov.items() if isinstance(v, (int, float, bool))}
         print(f"{self.pid} tier={self.tier} seed={self.seed} wall={out['wall_s']}s violations={len(new)} "
